@@ -161,6 +161,7 @@ public:
 		char* endp = NULL;
 		long v = 0;
 		bool numeric = false;
+		if (val == "\"\"") val = "";   // null datamodel: <log> without expr prints ""
 		if (val.size() > 0) {
 			v = strtol(val.c_str(), &endp, 10);
 			numeric = (*endp == 0);
@@ -336,7 +337,9 @@ static int runCase(const Case& c, FILE* out) {
 		}
 		fprintf(out, "],\"last\":\"%s\",\"limit\":%s", stateName(st), steps >= MAXSTEPS ? "true" : "false");
 		fflush(out);
-		return 0;
+		// leave without destroying the interpreter: tear-down (timer thread join) is
+		// C10's subject and must not colour the outcome of a trace-recording case
+		_exit(0);
 	} catch (Event e) {
 		fprintf(out, "{\"k\":\"note\",\"msg\":\"uncaught Event %s\"}\n", jesc(e.name).c_str());
 		return 4;
